@@ -11,7 +11,8 @@ attribute the engine really calls at that site (table SITES below) with a callab
 garbage is installed as real files in the snapshot directory before the first turn.  Two kinds of files: whole-file
 garbage (GARBAGE: nothing in it parses) and partially corrupt snapshots (`_partial_sites`: a snapshot-shaped object in
 which one section the loader consumes - store.weights, gel.edges - is valid up to its k-th entry and corrupt there,
-k = 0..n, bare or embedded in a complete snapshot body).  The fresh-boot world W2 starts with live store weights, W1
+k = 0..n, bare or embedded in a complete snapshot body; for gel.edges also a well-formed record in which ONE field other than the
+weight - attrs, updated_at, src, rel, id - holds a JSON value of the wrong kind, baseline in addition: that field at its default).  The fresh-boot world W2 starts with live store weights, W1
 with an empty weight map, so a load that fails half way and has already touched the live world is visible in apply.jsonl.
 
 Exception alphabet = class x INSTANCE SHAPE (text argument / no arguments at all, i.e. a bare `raise X` / one non-text
@@ -24,6 +25,14 @@ entries of the snapshot alphabet (weight not a number, record not a mapping, sec
 state['graph'] of a booted world, one edge at a time, with t2.hybrid on and graph.enabled off.  Judged only if the same
 world completes with the layer switched off (precondition); baselines: layer off / rerank identity / corrupt entries absent /
 corrupt weight read as 0.0 / empty section.
+
+Failure POSITION inside a declared region (a region is more than its call): besides raising at the call boundary, the callable
+of every typed site also fails by handing back an unusable result (result tokens "=None" / "=object": the exception then arises
+where the engine consumes the result - int(), len(), iteration, unpacking, attribute access), and the region fails while reading
+its own inputs: sites cfg:<subsystem>@<parameter>=<kind> put an unusable JSON value (null / text / list for numbers, null / number
+for lists) into a numeric or list parameter of the optional subsystem's configuration AFTER validation (a context built without
+configs.validate), in the fault run and its baselines alike.  Judged only if the run with that subsystem's gate closed under the
+same configuration completes; baselines: gate closed / subsystem idle / parameter at its validated value / parameter absent.
 
 Oracle (per execution):
   (1) every run_turn call returns a TurnResult (nothing escapes);
@@ -146,6 +155,8 @@ def _exc_class(name: str):
 
 
 def _split_token(token: str) -> Tuple[str, str]:
+    if token in RET_TOKENS:
+        raise HarnessError("%s is a result token, not an exception token" % token)
     i = token.find("(")
     name, shape = (token, "") if i < 0 else (token[:i], token[i:])
     if shape not in SHAPES:
@@ -174,6 +185,39 @@ def _mk_exc(token: str, site: str) -> BaseException:
     return cls(msg)
 
 
+# Failure POSITION inside a declared fail-soft region.  An exception token makes the optional callable raise AT ITS CALL
+# BOUNDARY.  A declared region ("try: n += int(cm.invalidate_namespace(ns)) except Exception: pass  # never fail apply", "try:
+# items, meta = rerank_with_gel(..) except ..") is more than the call: it also CONSUMES what the callable hands back.  A subsystem
+# can fail without raising - it completes and yields nothing usable (a duck-typed / proxy / half-migrated implementation that
+# returns None where a count, a list, a pair or a result object is documented).  The exception then arises at whichever statement
+# of the engine first touches the result (int(), len(), iteration, unpacking, attribute access, serialisation).  A result token
+# replaces the callable of a typed site by one that does nothing and returns
+#   "=None"     no result at all
+#   "=object"   an opaque object that supports no protocol (not a number, not iterable, not a mapping, no attributes)
+# i.e. exactly the two values on which EVERY consuming operation fails (a value that can be consumed - a wrong count, a wrong
+# list - would be a lie of the subsystem, not a failure, and is not enumerated).  Oracle unchanged: the turn completes and the
+# canonical records equal an off / idle baseline of that site (where the engine does not look at the result at all the callable
+# simply was idle).
+class _Unusable:
+    """opaque result: supports nothing beyond identity / truth / repr (repr is stable: no address)"""
+    __slots__ = ()
+
+    def __repr__(self) -> str:
+        return "<c20 unusable result>"
+
+
+RET_TOKENS = ("=None", "=object")
+
+
+def _fail(token: str, site: str) -> Any:
+    """the failure of an optional callable: raise the exception `token` names, or (result tokens) hand back an unusable result"""
+    if token == "=None":
+        return None
+    if token == "=object":
+        return _Unusable()
+    raise _mk_exc(token, site)
+
+
 EXC_BASE = ["ValueError", "KeyError", "RuntimeError", "OSError", "TypeError", "ZeroDivisionError", "C20Fault"]
 # thorough-only extras (all are Exception subclasses; BaseException-only types are not "failures inside")
 EXC_EXTRA = ["AttributeError", "IndexError", "AssertionError", "StopIteration", "MemoryError", "RecursionError",
@@ -185,14 +229,14 @@ def exc_tokens(thorough: bool, shaped: bool = True) -> List[str]:
     """singles alphabet.  quick: every base type as text-carrying and as argument-less instance + one non-text and one
     two-argument instance; thorough: every type x every shape it can be constructed in (shaped=False: first shape only)."""
     if not thorough:
-        return EXC_BASE + ([t + "()" for t in EXC_BASE] + ["KeyError(7)", "C20Fault(m,d)"] if shaped else [])
+        return EXC_BASE + ([t + "()" for t in EXC_BASE] + ["KeyError(7)", "C20Fault(m,d)"] if shaped else []) + list(RET_TOKENS)
     out = []
     for sh in (SHAPES if shaped else SHAPES[:1]):  # shape-major: the text-carrying tokens come first
         for t in EXC_BASE + EXC_EXTRA:
             if sh and t in _FIXED_SIGNATURE:
                 continue
             out.append(t + sh)
-    return out
+    return out + list(RET_TOKENS)  # result tokens: on every sequence (they carry no "(" and are not an instance shape)
 
 
 # ----------------------------------------------------------------------------- execution environment
@@ -236,7 +280,7 @@ class Env:
     def raiser(self, site: str, exc: str) -> Callable:
         def _raise(*_a, **_k):
             self.fire(site)
-            raise _mk_exc(exc, site)
+            return _fail(exc, site)
         _raise.__name__ = "c20_raiser"
         return _raise
 
@@ -466,6 +510,20 @@ _BAD_GEL_EDGE: Dict[str, Any] = {"weight-text": _gel_edge("ep2", "ep4", "heavy")
                                  "weight-list": _gel_edge("ep2", "ep4", [0.5])}
 
 
+# per-FIELD corruption of an otherwise well-formed edge record (numeric weight, so the record is not skipped for its weight): every
+# field of the record other than the weight x JSON value of the wrong kind.  The record reaches the live GEL graph unless the loader
+# cleans it, and the mandatory GEL update (gel_observe / gel_tick, graph.enabled on) reads those fields on every turn.  One site
+# class per field (boot:partial:gel.edges.<field>) so that a finding names the field.
+_BAD_GEL_FIELD: Dict[str, Dict[str, Any]] = {
+    "attrs": {"null": None, "text": "x", "list": [1], "number": 3},
+    "updated_at": {"number": 3, "list": [1], "object": {"a": 1}},
+    "src": {"null": None, "number": 3},
+    "rel": {"null": None, "list": [1]},
+    "id": {"null": None, "number": 3},
+}
+_GEL_FIELD_QUICK = [("attrs", "null"), ("updated_at", "list")]
+
+
 def _gel_section(edges: List[Dict[str, Any]]) -> Dict[str, Any]:
     return {"nodes": {n: {"id": n} for n in ("ep1", "ep2", "ep4")}, "edges": {e["id"]: e for e in edges},
             "meta": {"schema": "v1.1", "merges": [], "splits": [], "promotions": [], "concept_nodes_count": 0,
@@ -504,7 +562,7 @@ def _write_doc(fname: str, doc: Any) -> Callable[[Env], None]:
 
 
 PARTIAL_FNAME = "snap_000120.json"
-PARTIAL_CLASSES = ["boot:partial:store.weights", "boot:partial:gel.edges"]
+PARTIAL_CLASSES = ["boot:partial:store.weights", "boot:partial:gel.edges"]  # + one class per corrupt edge field (added below)
 
 
 def _mk_partial(section: str, label: str, doc: Any, cleaned: List[Tuple[str, Any]], fname: str = PARTIAL_FNAME) -> str:
@@ -558,6 +616,23 @@ def _partial_sites(thorough: bool) -> List[str]:
                         "gel.edges", "%s,k=%d,%s" % (kind, k, shape), _snapshot_doc(shape, gel=_gel_section(lst)),
                         [("section-dropped", _snapshot_doc(shape, gel=_ABSENT)),
                          ("corrupt-entries-dropped", _snapshot_doc(shape, gel=_gel_section(_VALID_GEL_EDGES)))], fname))
+        # per-field corruption: the corrupt record sits between the two valid ones (k = 1); thorough: every k
+        if fname == PARTIAL_FNAME:
+            good = _gel_edge("ep2", "ep4", 0.5)
+            for fld, kinds in _BAD_GEL_FIELD.items():
+                for kind, val in kinds.items():
+                    if not thorough and (fld, kind) not in _GEL_FIELD_QUICK:
+                        continue
+                    for shape in (shapes if thorough else ("full",)):
+                        for k in (range(len(_VALID_GEL_EDGES) + 1) if thorough else (1,)):
+                            bad = dict(good)
+                            bad[fld] = val
+                            mk = lambda rec: _snapshot_doc(shape, gel=_gel_section(_VALID_GEL_EDGES[:k] + [rec] + _VALID_GEL_EDGES[k:]))
+                            out.append(_mk_partial(
+                                "gel.edges." + fld, "%s,k=%d,%s" % (kind, k, shape), mk(bad),
+                                [("section-dropped", _snapshot_doc(shape, gel=_ABSENT)),
+                                 ("corrupt-entries-dropped", _snapshot_doc(shape, gel=_gel_section(_VALID_GEL_EDGES))),
+                                 ("corrupt-field-at-its-default", mk(good))], fname))
     return out
 
 # -- unreadable entries in the LIVE world an optional layer reads (data-induced failure) ---------------------------
@@ -744,7 +819,7 @@ def _log_append_wrapper(env: Env, on_refl: Callable[[], None]):
 def _raise_now(env: Env, site: str, exc: str):
     def _f():
         env.fire(site)
-        raise _mk_exc(exc, site)
+        return _fail(exc, site)
     return _f
 
 
@@ -843,7 +918,7 @@ def micro_t3_trace_one(exc: str, where: str) -> Tuple[bool, Optional[Tuple[str, 
 
     def boom(*_a, **_k):
         fired.append(1)
-        raise _mk_exc(exc, site)
+        return _fail(exc, site)
     logs: list = _RaisingList(boom) if where == "state_logs.append" else []
     meta: Dict[str, Any] = {"state_logs": logs}
     if where == "str(trace_reason)":
@@ -907,7 +982,7 @@ def _store_fault(site: str, which: str):
                 bad = which == "all" or (which == "batch" and n == 0) or (which == "delta0" and n in (0, 1))
                 if bad:
                     env.fire(site)
-                    raise _mk_exc(exc, site)
+                    return _fail(exc, site)
                 return real(gid, deltas)
             return apply_deltas
         _store_wrap(env, factory)
@@ -1011,7 +1086,110 @@ _site("qtrace:write",
       cfg=_shadow_cfg, requires=lambda cfg: not _q_on(cfg))
 
 BASE_SITE_NAMES = list(SITES)  # quick + thorough; singles and pairs
+
+
+# -- unusable parameters of an optional subsystem (failure while the region reads its own inputs) -------------------------
+# The third failure position: BEFORE the optional call, while the declared region prepares what it hands to the callable
+# ("try: for ns in namespaces: ... except Exception: pass  # never fail apply due to cache invalidation"; "try: cap = int(cfg.get(
+# 'cap_per_turn', 4)) ... except Exception: pass  # never let optional features break the turn").  What such a region reads is the
+# subsystem's OWN configuration.  Contexts are routinely built without configs.validate (drivers, tests, embedding applications),
+# so a parameter can arrive as None (a YAML key left empty) or as an object of the wrong kind; the failure then arises inside the
+# optional subsystem, at the statement that first uses the parameter.  Alphabet: optional subsystem x each of its leaf parameters
+# (never its gate) x unusable JSON value (table below; a usable wrong value is a different configuration, not a failure),
+# installed AFTER validation, in the fault run and in its off / idle baselines alike.
+# Inside the property only if the run with the subsystem's gate closed under the SAME configuration completes (precondition, as
+# for the live-world leg): then no mandatory part of the turn reads the parameter and whatever goes wrong with the gate open is
+# a failure inside the optional subsystem.  Admissible baselines: gate closed / subsystem idle (same configuration) / the
+# parameter at its validated value / the parameter absent (an implementation that falls back to a default).
+CFG_CLASS = "cfg"
+# kind -> value, per validated type of the parameter.  A configuration is JSON / YAML data, so the unusable values are JSON values of
+# the wrong kind - the corrupt-entry kinds of the snapshot alphabet (weight-null / weight-text / weight-list) applied to parameters:
+#   number-typed parameter: null, text that is no number, a list      (int() / float() / arithmetic / comparison fail)
+#   list-typed parameter:   null, a number                            (iteration fails)
+# text- and bool-typed parameters have no unusable JSON value (str() / bool() accept anything: a wrong value is a different
+# configuration, not a failure) and are not enumerated.
+_CFG_VALUES: Dict[str, Dict[str, Any]] = {"num": {"null": None, "text": "heavy", "list": [0.5]}, "list": {"null": None, "number": 7}}
+
+
+def _cfg_get(cfg: Any, path: Sequence[str]) -> Any:
+    for k in path:
+        cfg = cfg[k]
+    return cfg
+
+
+def _mk_cfg_site(subsystem: str, path: Tuple[str, ...], typ: str, kind: str, modes: List[Mode], pre: int, where: str,
+                 cfg: Optional[Callable[[Env], dict]] = None, requires: Optional[Callable[[Any], bool]] = None) -> str:
+    site = "%s:%s@%s=%s" % (CFG_CLASS, subsystem, ".".join(path), kind)
+    if site in SITES:
+        return site
+    saved: List[Any] = []
+    want = (int, float) if typ == "num" else (list,)
+
+    def put(c: Any) -> None:  # runs in the fault run and in every baseline run of this site
+        d = _cfg_get(c, path[:-1])
+        old = d.get(path[-1], _MISSING)
+        if isinstance(old, bool) or not isinstance(old, want):
+            raise HarnessError("config parameter %s: validated value %r is not of the declared type %s" % (".".join(path), old, typ))
+        saved[:] = [c, old]
+        import copy as _copy
+        d[path[-1]] = _copy.deepcopy(_CFG_VALUES[typ][kind])
+
+    def restore(c: Any) -> None:  # mode 'parameter at its validated value' (posts of modes run after those of sites)
+        if not saved or saved[0] is not c:
+            raise HarnessError("cfg site %s: restore without install" % site)
+        _cfg_get(c, path[:-1])[path[-1]] = saved[1]
+
+    def drop(c: Any) -> None:  # mode 'parameter absent' (the implementation's own built-in default)
+        if not saved or saved[0] is not c:
+            raise HarnessError("cfg site %s: drop without install" % site)
+        _cfg_get(c, path[:-1]).pop(path[-1], None)
+
+    _site(site, lambda env, _exc: env.fire(site),
+          list(modes) + [Mode("parameter-at-validated-value", cfg_post=restore), Mode("parameter-absent", cfg_post=drop)],
+          where, cfg=cfg, cfg_post=put, requires=requires, typed=False)
+    SITES[site].precondition = pre
+    return site
+
+
+def _cfg_sites(thorough: bool) -> List[str]:
+    out: List[str] = []
+
+    def add(subsystem: str, like: str, pre_name: str, params: List[Tuple[str, Tuple[str, ...]]], quick: int = 1) -> None:
+        """`like`: the call-boundary site of the same subsystem (its off / idle modes, gates and location are reused);
+        pre_name: the mode that closes the subsystem's gate; quick tier: the first `quick` parameters x kind null."""
+        base = SITES[like]
+        pre = [m.name for m in base.modes].index(pre_name)
+        for i, (typ, path) in enumerate(params):
+            for kind in _CFG_VALUES[typ]:
+                if thorough or (i < quick and kind == "null"):
+                    out.append(_mk_cfg_site(subsystem, path, typ, kind, base.modes, pre, base.where, cfg=base.cfg, requires=base.requires))
+
+    def nums(prefix: Tuple[str, ...], keys: Sequence[str]) -> List[Tuple[str, Tuple[str, ...]]]:
+        return [("num", prefix + (k,)) for k in keys]
+
+    add("invalidation", "apply:invalidate_namespace", "cache-bust-off",
+        [("list", ("t4", "cache", "namespaces"))] + nums(("t4", "cache"), ("max_entries", "ttl_sec")))
+    add("gel-merge", "gel:gel_merge_candidates", "passes-off:M",
+        nums(("graph", "merge"), ("cap_per_turn", "min_size", "min_avg_w", "max_diameter")))
+    add("gel-split", "gel:gel_split_candidates", "passes-off:S",
+        nums(("graph", "split"), ("cap_per_turn", "weak_edge_thresh", "min_component_size")))
+    add("gel-promotion", "gel:gel_promote_clusters", "passes-off:P",
+        nums(("graph", "promotion"), ("cap_per_turn", "topk_label_ids", "attach_weight")))
+    add("reflection", "refl:_run_reflection_if_enabled", "reflection-off",
+        nums(("t3", "reflection"), ("topk_snippets", "summary_tokens")) +
+        nums(("scheduler", "budgets"), ("ops_reflection", "time_ms_reflection")))
+    add("hybrid", "hybrid:rerank_with_gel", "hybrid-off",
+        nums(("t2", "hybrid"), ("lambda_graph", "anchor_top_m", "walk_hops", "edge_threshold", "damping", "max_bonus", "k_max")))
+    add("quality-fusion", "quality:fuse", "quality-off",
+        nums(("t2", "quality", "fusion"), ("alpha_semantic",)) + nums(("t2", "quality", "lexical"), ("bm25_k1", "bm25_b")))
+    add("quality-mmr", "quality:maybe_apply_mmr", "mmr-off", nums(("t2", "quality", "mmr"), ("k", "lambda", "lambda_relevance", "k_final")))
+    add("llm-adapter", "llm:build_llm_adapter", "backend-rulebased", nums(("t3", "llm"), ("max_tokens", "temp", "timeout_ms")))
+    return out
+
+
+CFG_QUICK = _cfg_sites(False)  # quick + thorough; singles only
 PARTIAL_QUICK = _partial_sites(False)  # quick + thorough; singles only
+PARTIAL_CLASSES += sorted({s.split("@")[0] for s in PARTIAL_QUICK} - set(PARTIAL_CLASSES))
 LIVE_QUICK = _live_sites(False)  # quick + thorough; singles only
 
 
@@ -1032,6 +1210,7 @@ def _register_thorough_sites() -> List[str]:
             extra.append(s)
     extra.extend(s for s in _partial_sites(True) if s not in PARTIAL_QUICK)
     extra.extend(s for s in _live_sites(True) if s not in LIVE_QUICK)
+    extra.extend(s for s in _cfg_sites(True) if s not in CFG_QUICK)
     return extra
 
 
@@ -1366,7 +1545,9 @@ def run(run: Run) -> None:
     items = []
     for world in WORLDS:
         for seq in seqs:
-            for s in names + PARTIAL_QUICK + LIVE_QUICK + extra_names:
+            for s in names + PARTIAL_QUICK + LIVE_QUICK + CFG_QUICK + extra_names:
+                if s.startswith(CFG_CLASS + ":") and list(map(list, seq)) not in shaped_seqs:
+                    continue  # unusable-parameter leg: on the shaped sequences (quick: all; thorough: the 4 pair sequences)
                 if _live(s, world):
                     items.append((world, seq, (s,)))
     # pairs: every unordered pair of base sites
@@ -1388,6 +1569,9 @@ def run(run: Run) -> None:
         "stages/t3/trace.emit_trace: try: logs.append({...}) except Exception: pass"
     for cls in PARTIAL_CLASSES:
         run.notes["sites"][cls + " (partially corrupt snapshot files, singles only)"] = SITES[PARTIAL_QUICK[0]].where
+    for cls in sorted({s.split("@")[0] for s in CFG_QUICK}):
+        run.notes["sites"][cls + " (unusable values of the subsystem's own parameters, unvalidated context, singles only)"] = SITES[
+            [s for s in CFG_QUICK if s.startswith(cls + "@")][0]].where
     run.notes["sites"][LIVE_CLASS + " (unreadable entries in the live GEL graph the hybrid rerank reads, GEL maintenance off, singles only)"] = \
         SITES[LIVE_QUICK[0]].where
     run.notes["n_sites"] = len(names)
@@ -1397,6 +1581,16 @@ def run(run: Run) -> None:
         "edges": [e["id"] for e in _LIVE_EDGES],
         "kinds": sorted({s.split("@")[1].split(",")[0] for s in LIVE_QUICK + extra_names if s.startswith(LIVE_CLASS + "@")}),
         "position_j": "which of the %d edges is the corrupt one" % len(_LIVE_EDGES)}
+    cfg_all = CFG_QUICK + [s for s in extra_names if s.startswith(CFG_CLASS + ":")]
+    run.notes["n_unusable_parameter_sites"] = len(cfg_all)
+    run.notes["unusable_parameter_alphabet"] = {
+        "values": {t: sorted(v) for t, v in _CFG_VALUES.items()},
+        "parameters": sorted({s.split("@")[1].rsplit("=", 1)[0] for s in cfg_all}),
+        "subsystems": sorted({s.split("@")[0] for s in cfg_all}),
+        "installed": "after configs.validate (a context built without validation), in the fault run and its off / idle baselines alike",
+        "sequences": len(shaped_seqs)}
+    run.notes["result_tokens"] = {"=None": "the optional callable does nothing and returns None",
+                                  "=object": "... returns an opaque object that supports no protocol"}
     run.notes["exception_shapes"] = {"Name": "one text argument (OSError family: errno, text)", "Name()": "no arguments (bare raise)",
                                      "Name(7)": "one non-text argument", "Name(m,d)": "two arguments (text, dict)"}
     run.notes["n_extra_garbage_sites"] = len(extra_names)
@@ -1407,6 +1601,8 @@ def run(run: Run) -> None:
                                              if s.startswith("boot:partial:store.weights@")}),
         "gel.edges entry kinds": sorted({s.split("@")[1].split(",")[0] for s in PARTIAL_QUICK + extra_names
                                          if s.startswith("boot:partial:gel.edges@")}),
+        "gel.edges field kinds (otherwise well-formed record)": sorted({s.split("@")[0].rsplit(".", 1)[1] + "-" + s.split("@")[1].split(",")[0]
+                                                                        for s in PARTIAL_QUICK + extra_names if s.startswith("boot:partial:gel.edges.")}),
         "position_k": "0..%d valid entries before the corrupt one (store.weights), 0..%d (gel.edges)" % (
             len(_VALID_W), len(_VALID_GEL_EDGES)),
         "live_weights_at_boot": {"W1": 0, "W2": len(LIVE_W)}}
@@ -1423,12 +1619,18 @@ def run(run: Run) -> None:
                 "exception type); singles: every site x every type; pairs: every unordered site pair whose gates can be open "
                 "together x type(s); fault active in both turns; boot files: whole-file garbage kinds (singles and pairs) and "
                 "partially corrupt snapshots = section in {store.weights, gel.edges} x corruption kind x position k of the corrupt "
-                "entry x shape {bare, full} (singles); live-world corruption (singles, booted worlds, GEL maintenance off, hybrid rerank on) = "
+                "entry x shape {bare, full} (singles), and for gel.edges also per-field corruption of an otherwise well-formed record "
+                "(field in {attrs, updated_at, src, rel, id} x JSON value of the wrong kind x k x shape; quick: attrs-null and updated_at-list at k=1, full); live-world corruption (singles, booted worlds, GEL maintenance off, hybrid rerank on) = "
                 "which edge of state['graph'] is corrupt x kind {weight not a number, record not a mapping} + edges / graph section not a mapping; "
                 "exception type = class x instance shape {text argument, no arguments, non-text argument, two arguments} "
                 "(shapes other than the first: on coverage.n_sequences_singles_with_every_instance_shape of the sequences); "
+                "failure position inside a declared region: at the call (exception tokens) / while the engine consumes the result: the callable "
+                "of every typed site returns None or an opaque object instead of raising (result tokens, singles, every sequence) / while the "
+                "region reads its own inputs: optional subsystem x each numeric or list parameter of its configuration x unusable JSON value "
+                "{null, text, list | null, number} installed after validation (singles, same sequences as the instance shapes; gate-closed run must complete); "
                 "non-trivial = every installed fault was actually reached "
-                "(raiser called / garbage file picked by the boot loader / rerank layer entered with the corrupt graph in place)")
+                "(raiser / returner called / garbage file picked by the boot loader / rerank layer entered with the corrupt graph in place / "
+                "unusable parameter installed with the subsystem's gate open)")
     run.pmap(_worker, items, extra=(run.scratch, excs, pair_excs, shaped_seqs), chunks=None)
     cands: Dict[str, Tuple[str, str, Any]] = {}
     for k in [k for k in run.notes if k.startswith("_viol|")]:
@@ -1454,7 +1656,7 @@ def run(run: Run) -> None:
     logging.disable(logging.NOTSET)
     fired = run.sets.get("sites_fired", set())
     from mc.runner import h64
-    never = [s for s in names + PARTIAL_CLASSES + [LIVE_CLASS, "t3trace:emit_trace"] if h64(s.split("@")[0]) not in fired]
+    never = [s for s in names + PARTIAL_CLASSES + [LIVE_CLASS, "t3trace:emit_trace"] + sorted({c.split("@")[0] for c in CFG_QUICK}) if h64(s.split("@")[0]) not in fired]
     run.notes["sites_never_reached"] = never
     if never and not run.viol:  # with violations present an early abort may legitimately hide later sites
         raise HarnessError("fault never reached at declared site(s) %s - seam rotted or gate not open" % never)
@@ -1465,6 +1667,12 @@ def run(run: Run) -> None:
     run.assume("live-world corruption is judged only where the run with t2.hybrid switched off on the same corrupt world completes (then no mandatory stage depends on the "
                "corrupt entries; otherwise the plan is counted as plans_outside_property); GEL maintenance (graph.enabled) is off in this leg because gel_tick/gel_observe "
                "are not declared optional and read the same graph; admissible behaviours: layer off / rerank identity / corrupt entries absent / corrupt weight read as 0.0 / section empty")
+    run.assume("a subsystem that hands back an unusable result (None / an object supporting no protocol) has failed; results that can be consumed (a wrong count, "
+               "a wrong list) are not failures and are not enumerated; where the engine never looks at the result the callable was simply idle (idle baseline)")
+    run.assume("unusable parameters: contexts may be built without configs.validate, so a numeric / list parameter of an optional subsystem can arrive as null or as a "
+               "JSON value of the wrong kind; judged only where the run with that subsystem's gate closed under the same configuration completes (otherwise "
+               "plans_outside_property); text / bool parameters and the gates themselves are not corrupted (every JSON value is usable there); admissible behaviours: "
+               "gate closed / subsystem idle / parameter at its validated value / parameter absent")
     run.assume("injected callables fail cleanly: the replaced callable raises before doing any work; a half-finished optional operation is "
                "modelled only for the boot loader, through snapshot files that are valid up to an entry and corrupt there (store.weights, gel.edges)")
     run.assume("partially corrupt snapshot: admissible behaviours are the failing unit idle at file, section or entry granularity "
